@@ -216,6 +216,24 @@ int vnacal_new_set_frequency_vector(vnacal_new_t *vnp,
 		frequency_vector[vnp->vn_frequencies - 1]) == -1) {
 	return -1;
     }
+
+    /*
+     * The measurement error model given to vnacal_new_set_m_error was
+     * range-checked against and interpolated onto the frequency vector
+     * that was in force at that time; the vectors it was made from are
+     * not kept.  Refuse to move the calibration frequencies from under it.
+     */
+    if (vnp->vn_m_error_vector != NULL) {
+	for (int i = 0; i < vnp->vn_frequencies; ++i) {
+	    if (frequency_vector[i] != vnp->vn_frequency_vector[i]) {
+		_vnacal_error(vcp, VNAERR_USAGE,
+			"vnacal_new_set_frequency_vector: measurement error "
+			"model already set: call vnacal_new_set_m_error after "
+			"vnacal_new_set_frequency_vector");
+		return -1;
+	    }
+	}
+    }
     (void)memcpy((void *)vnp->vn_frequency_vector, (void *)frequency_vector,
 	    vnp->vn_frequencies * sizeof(double));
     vnp->vn_frequencies_valid = true;
